@@ -163,6 +163,14 @@ def run(ctx):
             flows_.append(make_req(owners={"pk_file_user": nm, "pk_file_group": nm}, pk_mode=0o640))
             flows_.append(make_req(owners={"cert_file_user": nm, "pk_file_group": nm, "cert_file_group": nm, "pk_file_user": nm}))
         res.extra["names_with_uid_ne_gid"] = same[:2]
+        # account names that do not start with a letter (_apt, _ssh, 3proxy ...): still names, not numbers
+        odd_u = [pw.pw_name for pw in pwd.getpwall() if not pw.pw_name[0].isalpha() and not pw.pw_name.isdigit()][:1]
+        odd_g = [g.gr_name for g in grp.getgrall() if not g.gr_name[0].isalpha() and not g.gr_name.isdigit()][:1]
+        for u in odd_u:
+            flows_.append(make_req(owners={"pk_file_user": u, "cert_file_user": u}))
+        for g_ in odd_g:
+            flows_.append(make_req(owners={"pk_file_group": g_, "cert_file_group": g_}, pk_mode=0o640))
+        res.extra["names_not_starting_with_a_letter"] = odd_u + odd_g
     # rewrite of existing files under a changed configuration
     flows_.append(make_req(cert_mode=0o644, pk_mode=0o600, phase2={"cert_file_mode": 0o600, "pk_file_mode": 0o640}))
     flows_.append(make_req(cert_mode=0o600, pk_mode=0o640, phase2={"cert_file_mode": 0o644, "pk_file_mode": 0o600}))
